@@ -98,6 +98,7 @@ structure St where
   attacher : Option Nat := none
   asked : List (Nat × Nat) := []       -- attacher consultations awaiting a (Deferred) answer: token ↦ stream object
   targets : List ((Text × Nat) × (Nat × Nat)) := []   -- `_CircuitAttacher._circuit_targets`: local (address, port) ↦ (circuit object, Deferred)
+  viaWait : List (Nat × (Nat × (Text × Nat))) := []   -- via-circuit connections waiting for their circuit to be BUILT: circuit object ↦ (Deferred, local address the SOCKS connection will have)
   nextTok : Nat := 0
   deriving DecidableEq, Repr
 
@@ -180,6 +181,30 @@ def circPath (s : St) (o cid : Nat) (args : List Text) (quit : List Nat) : St ×
   else if !isTerminalC st && args.length > 2 then updatePath s o quit (TxV.Split.splitOn ',' (args.getD 2 []))
   else (s, [])
 
+/-- the Deferred a completion is about (waiters are told in the order they started to wait, which is the order their
+Deferreds were handed out) -/
+def outKey : Out → Nat
+  | .fire d _ => d
+  | _ => 0
+
+def insertFire (x : Out) : List Out → List Out
+  | [] => [x]
+  | y :: ys => if outKey x ≤ outKey y then x :: y :: ys else y :: insertFire x ys
+
+/-- the completions `b` put among the completions `a`, each before the first one about a later Deferred -/
+def mergeFires (a : List Out) : List Out → List Out
+  | [] => a
+  | x :: b => insertFire x (mergeFires a b)
+
+/-- one registration in `_circuit_targets` (an entry under the same local address is replaced) -/
+def addTarget (ts : List ((Text × Nat) × (Nat × Nat))) (key : Text × Nat) (o d : Nat) : List ((Text × Nat) × (Nat × Nat)) :=
+  (ts.filter fun e => e.1 ≠ key) ++ [(key, (o, d))]
+
+/-- the connections waiting for circuit `o` register, in the order they were started -/
+def registerWaiting (s : St) (o : Nat) : St :=
+  { s with viaWait := s.viaWait.filter (·.1 ≠ o),
+           targets := (s.viaWait.filter (·.1 = o)).foldl (fun ts w => addTarget ts w.2.2 o w.2.1) s.targets }
+
 /-- BUILT: listeners, then `_when_built`; CLOSED / FAILED: the pending close, `_when_closed`, the
     TorState's own handler (`_when_built` fails, the circuit leaves `state.circuits`), then the listeners -/
 def circFinish (s : St) (o cid : Nat) (args : List Text) (quit : List Nat) : St × List Out :=
@@ -188,16 +213,20 @@ def circFinish (s : St) (o cid : Nat) (args : List Text) (quit : List Nat) : St 
     let n := notifyC s o quit (str "built") [] []
     let c := getC n.1 o
     let f := c.built.fire true
-    (setC n.1 o { c with built := f.1 }, n.2 ++ f.2)
+    let s2 := setC n.1 o { c with built := f.1 }
+    -- connections that waited for this circuit go ahead: their SOCKS connection is made and its local address registered
+    (registerWaiting s2 o, n.2 ++ f.2)
   else if isTerminalC st then
     -- `log.err` when a circuit FAILED with streams still on it (CLOSED only logs a message)
     let complain : List Out := if st = str "FAILED" && !(getC s o).streams.isEmpty then [.err (str "failed-with-streams")] else []
     let cl := circClosing s o
     let c := getC cl.1 o
     let f := c.built.fire false
-    let s3 := { setC cl.1 o { c with built := f.1 } with circuits := adel cl.1.circuits cid }
+    -- connections that waited for this circuit to be built fail with it
+    let mine := cl.1.viaWait.filter (·.1 = o)
+    let s3 := { setC cl.1 o { c with built := f.1 } with circuits := adel cl.1.circuits cid, viaWait := cl.1.viaWait.filter (·.1 ≠ o) }
     let n := notifyC s3 o quit (if st = str "CLOSED" then str "closed" else str "failed") [] (createFlags (findKeywords args))
-    (n.1, complain ++ cl.2 ++ f.2 ++ n.2)
+    (n.1, complain ++ cl.2 ++ mergeFires f.2 (mine.map fun w => Out.fire w.2.1 false) ++ n.2)
   else (s, [])
 
 /-- `Circuit.update(args)` on circuit object `o` -/
@@ -479,9 +508,9 @@ def step (s : St) : In → St × List Out
     let s1 := { s with nextD := d + 1 }
     if s.attacher ≠ some 0 then (s, [.err (str "no-internal-attacher")])
     else if c.state = str "BUILT" || c.built.fired = some true then
-      ({ s1 with targets := (s1.targets.filter fun e => e.1 ≠ (addr, port)) ++ [((addr, port), (o, d))] }, [.deferred d])
+      ({ s1 with targets := addTarget s1.targets (addr, port) o d }, [.deferred d])
     else if c.built.fired = some false then (s1, [.deferred d, .fire d false])
-    else (s, [.err (str "via-before-built")])          -- connect() would wait for BUILT: not modelled
+    else ({ s1 with viaWait := s1.viaWait ++ [(o, (d, (addr, port)))] }, [.deferred d])   -- connect() waits for BUILT
   | .viaLost addr port =>
     match rekey (addr, port) s.nextD s.targets with
     | none => (s, [])
